@@ -17,7 +17,7 @@ ANCHORS = ["pyrex.antenna:Antenna.waveforms", "pyrex.antenna:Antenna.all_wavefor
            "pyrex.detector:AntennaSystem.signals", "pyrex.detector:AntennaSystem.waveforms", "pyrex.detector:AntennaSystem.all_waveforms",
            "pyrex.detector:AntennaSystem.full_waveform", "pyrex.detector:AntennaSystem._calculate_lead_in_times"]
 RULE = ("one case = one history of 3-25 operations on an Antenna with threshold trigger / trivial trigger, a DipoleAntenna, "
-        "or an AntennaSystem with lead-in 0 or 25 ns and an identity / gain / integer-sample-delay front end, noisy or "
+        "or an AntennaSystem with lead-in 0, 25 ns or a non-integer number of samples and an identity / gain / integer-sample-delay front end, noisy or "
         "noiseless, receiving overlapping, nested and disjoint windows of different lengths and steps; non-trivial = "
         "the history contains a query-receive-query pattern (a query after a receive that followed an earlier query); "
         "distinct = hash of the case")
@@ -57,7 +57,7 @@ def gen_cases(tier, seed):
     rng = rng_for(PROPERTY, seed)
     n = 640 if tier == "quick" else 25000
     out = []
-    kinds = ["antenna-threshold", "antenna-trivial", "dipole", "system-identity", "system-gain", "system-delay", "system-delay", "antenna-threshold"]
+    kinds = ["antenna-threshold", "antenna-trivial", "dipole", "system-identity", "system-gain", "system-delay", "system-delay", "antenna-threshold", "system-odd-lead-in"]
     for i in range(n):
         kind = kinds[i % len(kinds)]
         out.append({"cls": kind + (":noisy" if (i // len(kinds)) % 2 else ":noiseless"), "kind": kind, "noisy": bool((i // len(kinds)) % 2),
@@ -88,6 +88,7 @@ def run_case(case):
             self.nd, self.gain, self.lead_in_time = nd, gain, lead
 
         def front_end(self, sig):
+            front_calls.append((float(sig.times[0]), float(sig.times[-1]), len(sig.times), float(sig.times[1] - sig.times[0]) if len(sig.times) > 1 else 0.0))
             c = sig.copy()
             tau = self.nd * sig.dt
             g = self.gain
@@ -95,6 +96,9 @@ def run_case(case):
             return c
 
     nd, gain = 0, 1.0
+    front_calls = []
+    lead = 0.0
+    master = np.arange(-400, 600) * dt        # every dt-step grid is a slice of this array: equal nominal times are equal bit for bit
     if kind == "dipole":
         base = pa.DipoleAntenna("d", (0, 0, -100), 250e6, 300e6, 300.0, 50.0, trigger_threshold=float(rng.choice([0.0, 2e-5, 0.3])), noisy=noisy,
                                 unique_noise_waveforms=case["unique"])
@@ -106,10 +110,17 @@ def run_case(case):
         obj = FrontSys(base, 0, 1.0, 0.0)
     elif kind == "system-gain":
         gain = case["gain"]
-        obj = FrontSys(base, 0, gain, 25e-9)
+        lead = 25e-9
+        obj = FrontSys(base, 0, gain, lead)
     elif kind == "system-delay":
         nd, gain = case["nd"], case["gain"]
-        obj = FrontSys(base, nd, gain, 25e-9)
+        lead = 25e-9
+        obj = FrontSys(base, nd, gain, lead)
+    elif kind == "system-odd-lead-in":
+        # lead-in that is not a whole number of samples; the front end remembers nd whole samples (< lead-in)
+        nd, gain = case["nd"] % 8, case["gain"]
+        lead = (nd + float(rng.choice([0.5, 0.25, 0.9, 0.999]))) * dt
+        obj = FrontSys(base, nd, gain, lead)
     else:
         obj = base
     is_sys = obj is not base
@@ -138,6 +149,8 @@ def run_case(case):
             for edge_t, edge_v in ((t[0], x[0]), (t[-1], x[-1])):
                 near = np.where(np.abs((times - nd * step) - edge_t) <= 32 * EPS * max(abs(edge_t), abs(times[0]), abs(times[-1]), 1e-300) + 1e-22)[0]
                 for i in near:
+                    if nd == 0 and times[i] == edge_t:
+                        continue          # bit-for-bit the edge sample itself: the edge value, nothing else
                     lo[i] = min(lo[i], e0[i] - abs(gain * edge_v))
                     hi[i] = max(hi[i], e0[i] + abs(gain * edge_v))
         wv = np.asarray(w.values, float)
@@ -172,7 +185,21 @@ def run_case(case):
                 sdt = dt if rng.random() < 0.8 else float(rng.choice([0.5e-9, 2e-9]))
                 if nd and sdt > dt:
                     sdt = 0.5e-9      # the front end delays by nd samples of the window's step: keep nd*step <= lead-in (25 ns)
-                s = Signal(t0 + np.arange(n) * sdt, rng.normal(size=n) * float(rng.choice([0.1, 1.0])), "voltage")
+                if sdt == dt:
+                    i0 = int(round(t0 / dt)) + 400
+                    if model and rng.random() < 0.3:
+                        # touching grids: start exactly on the last sample of an earlier signal, or end exactly on its first
+                        tt_ = model[int(rng.integers(0, len(model)))][0]
+                        j_ = int(round(tt_[-1] / dt)) + 400 if rng.random() < 0.5 else int(round(tt_[0] / dt)) + 400 - (n - 1)
+                        if 0 <= j_ and j_ + n <= len(master) and abs(tt_[1] - tt_[0] - dt) < 1e-15:
+                            i0 = j_
+                    grid = master[i0:i0 + n].copy()
+                else:
+                    grid = t0 + np.arange(n) * sdt
+                vals_ = rng.normal(size=n) * float(rng.choice([0.1, 1.0]))
+                vals_[0] += np.sign(vals_[0]) * 0.5      # edge samples clearly non-zero
+                vals_[-1] += np.sign(vals_[-1]) * 0.5
+                s = Signal(grid, vals_, "voltage")
                 n_before = len(base.signals)
                 ret = obj.receive(s)
                 v.check(len(base.signals) == n_before + 1, "receive adds exactly one signal", before=n_before, after=len(base.signals))
@@ -218,9 +245,22 @@ def run_case(case):
                             v.check((not mc) or sum(exp_trig) > 0, "is_hit_mc_truth implies is_hit", history=log[-6:])
             elif op in ("full", "during"):
                 n = int(rng.integers(10, 120))
-                t0 = int(rng.integers(-100, 200)) * dt
-                times = t0 + np.arange(n) * dt
+                i0 = int(rng.integers(-100, 200)) + 400
+                if model and rng.random() < 0.35:
+                    # window starting exactly on a signal's last sample / ending exactly on a signal's first sample
+                    tt_ = model[int(rng.integers(0, len(model)))][0]
+                    if abs(tt_[1] - tt_[0] - dt) < 1e-15:
+                        j_ = int(round(tt_[-1] / dt)) + 400 if rng.random() < 0.5 else int(round(tt_[0] / dt)) + 400 - (n - 1)
+                        if 0 <= j_ and j_ + n <= len(master):
+                            i0 = j_
+                times = master[i0:i0 + n].copy()
+                del front_calls[:]
                 w = obj.full_waveform(times)
+                if is_sys and lead > 0:
+                    ends = [c for c in front_calls if abs(c[1] - times[-1]) <= 1e-6 * dt]
+                    v.check(bool(ends) and all(c[0] <= times[0] - lead + 1e-6 * dt and abs(c[3] - dt) <= 1e-6 * dt for c in ends),
+                            "the front end is handed the window preceded by at least the configured lead-in, on the window's step", lead_in_ns=lead * 1e9,
+                            window_start_ns=float(times[0] * 1e9), front_end_saw=[[c[0] * 1e9, c[1] * 1e9, c[2]] for c in front_calls[:3]], history=log[-6:])
                 ok = check_wave(w, times, "full_waveform")
                 if ok and op == "during":
                     v.check(bool(obj.is_hit_during(times)) == bool(obj.trigger(obj.full_waveform(times))), "is_hit_during == trigger(full_waveform)", history=log[-6:])
